@@ -53,7 +53,10 @@ func (c *Ctx) load(patterns []string) {
 		"GOFLAGS=-mod=mod", "GOPROXY=off", "GOSUMDB=off", "GOTOOLCHAIN=local",
 		"GOOS=linux", "GOARCH=amd64", "CGO_ENABLED=0", "GOWORK=off")
 	if _, err := os.Stat("/opt/veriftools/go1.26.8/bin/go"); err == nil {
-		env = append(env, "PATH=/opt/veriftools/go1.26.8/bin:"+os.Getenv("PATH"))
+		// go/packages resolves the "go" executable through this process's
+		// PATH; the system go (1.23) cannot parse the repository's go.mod.
+		os.Setenv("PATH", "/opt/veriftools/go1.26.8/bin:"+os.Getenv("PATH"))
+		env = append(env, "PATH="+os.Getenv("PATH"))
 	}
 	c.Fset = token.NewFileSet()
 	cfg := &packages.Config{
